@@ -170,6 +170,12 @@ def r3(repo, chk):
         adds = [c for c in h.calls(name="self._peer_cid_sequence_numbers.add") if norm(c.args[0]) == "sequence_number"]
         ok = len(adds) == 1 and h.lexical_guards(adds[0], expand=False) == h.lexical_guards(a, expand=False)
         chk.ob("R3", "every stored ID's sequence number is remembered", ok, "", h.loc(a))
+    # nothing returns between recording the new retire-prior-to and acting on it (a frame that repeats a known
+    # sequence number may still raise retire-prior-to)
+    acts = [st for st in filt] + [c for c in h.calls(name="self._consume_peer_cid")] + [c for c in h.calls(name="self._retire_peer_cid")]
+    last = max((getattr(x, "lineno", 0) for x in acts), default=0)
+    early = [r for r in h.returns() if rpt and rpt[0][0].lineno < r.lineno < last]
+    chk.ob("R3", "every NEW_CONNECTION_ID frame that is not refused runs the retire-prior-to processing (no early return for a known sequence number)", bool(rpt) and bool(acts) and not early, f"return at line(s) {[r.lineno for r in early]}: a retransmitted frame carrying a larger Retire Prior To leaves retired IDs in use and unannounced", h.loc(h.node))
     # the ID in use is abandoned exactly when it falls below retire-prior-to
     flags = [(st, t) for st, t, v in h.assigns(chain="change_cid") if isinstance(v, ast.Constant) and v.value is True]
     ok = len(flags) == 1
